@@ -85,7 +85,10 @@ def _chunk(args):
             err = p.stderr.decode(errors="replace")
             m = re.search(r"(AddressSanitizer: [\w-]+|runtime error: [\w ]+)", err)
             what = "crash:%s" % ((m.group(1) if m else ("exit-%d" % p.returncode)).replace(" ", "-"))
-            viols.append({"kind": "crash", "spec": last_run, "what": what, "rec": "", "class": what[:60], "stderr": err[-1500:]})
+            d = spec_dict(last_run)
+            if any(d.get(k, "0") != "0" for k in ("afail", "cfail", "wfail")):
+                what = "fault-swallowed:" + what          # a crash after an injected fault is a fail-stop matter (C13)
+            viols.append({"kind": "crash", "spec": last_run, "what": what, "rec": "", "class": what[:70], "stderr": err[-1500:]})
         elif not last_run:
             viols.append({"kind": "harness", "spec": "", "what": "exit %d without a run: %s" % (p.returncode, p.stderr.decode(errors="replace")[-300:]), "rec": "",
                           "class": "harness"})
@@ -122,7 +125,10 @@ def run_spec(binary, spec):
         err = p.stderr.decode(errors="replace")
         m = re.search(r"(AddressSanitizer: [\w-]+|runtime error: [\w ]+)", err)
         what = "crash:%s" % ((m.group(1) if m else ("exit-%d" % p.returncode)).replace(" ", "-"))
-        v = [{"kind": "crash", "spec": spec, "what": what, "rec": "", "class": what[:60]}]
+        d = spec_dict(spec)
+        if any(d.get(k, "0") != "0" for k in ("afail", "cfail", "wfail")):
+            what = "fault-swallowed:" + what
+        v = [{"kind": "crash", "spec": spec, "what": what, "rec": "", "class": what[:70]}]
     return {"rc": p.returncode, "viols": v, "classes": [x["class"] for x in v]}
 
 
